@@ -27,7 +27,7 @@ import impl
 import specnorm
 
 ID = 'C03'
-EXTRA_MODULES = ['Mistletoe.Proofs.Compose', 'propsdriver']
+EXTRA_MODULES = ['Mistletoe.Proofs.Compose', 'Mistletoe.Proofs.ComposeLists2', 'propsdriver']
 RULE = ('trees of up to depth 4 / ~40 blocks (paragraphs, ATX and setext headings, thematic breaks, fenced and indented code, '
         'block quotes, tight and loose bullet/ordered lists, tables, HTML blocks, link definitions; emphasis, strong, '
         'strikethrough, code spans, inline/reference links, images, autolinks, hard and soft breaks, escapes, character '
@@ -168,7 +168,70 @@ def fix_bare(t, under_bare=False):
             fix_bare(k, under_bare or t['bare'])
 
 
+def frag_tree2(rng, depth):
+    """a tree of the fragment with lists (Props/C03_Lists.lean): lines without leading spaces (the list theorems need it)"""
+    r = rng.random()
+    if r < 0.35 or depth >= 3:
+        return {'k': 'para', 'lines': [frag_line(rng) + '\n' for _ in range(rng.randint(1, 3))]}
+    if r < 0.45:
+        lv = rng.randint(1, 6)
+        text = frag_line(rng)
+        return {'k': 'heading', 'level': lv, 'text': text, 'line': '#' * lv + ' ' + text + rng.choice(['', '', ' #']) + '\n'}
+    if r < 0.52:
+        return {'k': 'hr', 'line': rng.choice(['***', '___', '* * *', '_____']) + '\n'}
+    if r < 0.62:
+        return {'k': 'quote', 'bare': False, 'kids': siblings2(rng, depth + 1)}
+    ordered = rng.random() < 0.4
+    loose = rng.random() < 0.5
+    n = rng.randint(1, 4)
+    if loose:
+        items = [siblings2(rng, depth + 1, first_para=True) for _ in range(n)]
+        if n == 1 and len(items[0]) == 1:
+            items[0].append({'k': 'para', 'lines': [frag_line(rng) + '\n']})
+    else:
+        items = [[{'k': 'para', 'lines': [frag_line(rng) + '\n' for _ in range(rng.randint(1, 2))]}] for _ in range(n)]
+    return {'k': 'list', 'ordered': ordered, 'start': rng.choice([1, 1, 2, 7, 10, 0, 999999990]) if ordered else 0,
+            'marker': rng.choice('.)') if ordered else rng.choice('-+*'), 'pad': rng.randint(1, 4), 'loose': loose, 'items': items}
+
+
+def siblings2(rng, depth, first_para=False):
+    out = []
+    for i in range(rng.randint(1, 3)):
+        t = frag_tree2(rng, depth)
+        if (i == 0 and first_para) or (out and out[-1]['k'] == 'list' and t['k'] == 'list'):
+            t = {'k': 'para', 'lines': [frag_line(rng) + '\n']}
+        out.append(t)
+    return out
+
+
+def _depth2(t):
+    if t['k'] == 'quote':
+        return 1 + max([_depth2(k) for k in t['kids']], default=0)
+    if t['k'] == 'list':
+        return 1 + max([_depth2(k) for it in t['items'] for k in it], default=0)
+    return 1
+
+
 def units(ctx):
+    rng2 = ctx.rng('fragment2')
+    forests2 = [siblings2(rng2, 0) for _ in range(ctx.budget(2500, 25000))]
+    opts2 = [{}, {'html_escape_double_quotes': True}, {'html_escape_single_quotes': True}]
+    res2 = common.driver_batch([{'op': 'c03.fragment2', 'forest': f, 'dq': bool(opts2[i % 3].get('html_escape_double_quotes')),
+                                 'sq': bool(opts2[i % 3].get('html_escape_single_quotes'))} for i, f in enumerate(forests2)],
+                               binary=common.PROPS_DRIVER)
+    n_ok2 = n_list = 0
+    for i, (f, r) in enumerate(zip(forests2, res2)):
+        if not (isinstance(r, dict) and r.get('ok')):
+            continue
+        n_ok2 += 1
+        n_list += any(t['k'] == 'list' for t in f)
+        try:
+            real = impl.parse_render('HtmlRenderer', opts2[i % 3], r['text'])[1]
+        except Exception as e:
+            real = {'raises': type(e).__name__}
+        ctx.compare('c03.theorem.lists', {'text': r['text'], 'options': opts2[i % 3]}, r['html'], real,
+                    kind='depth%d' % max(_depth2(t) for t in f))
+    ctx.notes.append('of %d generated forests with lists %d satisfy the hypothesis T2.oks (%d of them contain a list)' % (len(forests2), n_ok2, n_list))
     rng = ctx.rng('fragment')
     forests = []
     for _ in range(ctx.budget(2500, 25000)):
